@@ -105,6 +105,8 @@ static int parse_groups(const char* s, long* flat, int* glen, int capg, int* nfl
   return ng;
 }
 
+static FILE* OUT = NULL;
+#define printf(...) fprintf(OUT ? OUT : stdout, __VA_ARGS__)
 static void print_ints(const int* a, int n) { for (int i = 0; i < n; i++) printf(i ? " %d" : "%d", a[i]); }
 static void print_hex(const double* a, int n) {
   for (int i = 0; i < n; i++) { uint64_t u; memcpy(&u, a + i, 8); printf(i ? " %016llx" : "%016llx", (unsigned long long)u); }
@@ -569,7 +571,7 @@ static void do_scene(char* op, char* rest) {
   char* tok[4096]; int n = 0; char* save;
   for (char* t = strtok_r(rest, " \t\r\n", &save); t && n < 4096; t = strtok_r(NULL, " \t\r\n", &save)) tok[n++] = t;
   volatile int failed = 0;
-  if (setjmp(jb)) { jb_armed = 0; printf("error %s\n", lasterr); return; }
+  if (setjmp(jb)) { jb_armed = 0; if (OUT) { fclose(OUT); OUT = NULL; } printf("error %s\n", lasterr); return; }
   jb_armed = 1;
   if (!strcmp(op, "sflag") && n == 1) { set_sleep_flag(atoi(tok[0])); printf("ok\n"); }
   else if (!strcmp(op, "sopt") && n == 2) {
@@ -601,10 +603,17 @@ static void do_scene(char* op, char* rest) {
     printf("ok\n");
   }
   else if (!strcmp(op, "sstep") && n == 1) {
+    // records are buffered: an engine error in the middle of the run must not leave a partial line
     int reps = atoi(tok[0]);
+    static char* mbuf = NULL; static size_t mlen = 0;
+    if (OUT) { fclose(OUT); OUT = NULL; }
+    free(mbuf); mbuf = NULL; mlen = 0;
+    OUT = open_memstream(&mbuf, &mlen);
     printf("ok");
     for (int r = 0; r < reps; r++) { mj_step(m, d); printf(r ? " ; " : " "); print_record(); }
     printf("\n");
+    fclose(OUT); OUT = NULL;
+    fputs(mbuf, stdout);
   }
   else if (!strcmp(op, "sfields") && n == 0) { printf("ok"); print_field_hashes(); printf("\n"); }
   else if (!strcmp(op, "sstate") && n == 0) { printf("ok "); print_record(); printf("\n"); }
